@@ -306,14 +306,15 @@ def main(pid, run, replay=None, argv=None):
             if replay is None:
                 print('replay not supported for this property', file=sys.stderr)
                 return 2
-            if replay is RERUN:
+            res = RERUN if replay is RERUN else replay(ctx, scen)
+            if res is RERUN:
                 # scenarios of this check depend on a world built by the check itself: re-run the quick tier and look for the
                 # same violation key
                 ctx.tier = 'quick'
                 run(ctx)
                 ok = scen.get('key') not in [k for k, _, _ in ctx.violations]
             else:
-                ok = replay(ctx, scen)
+                ok = res
             print('REPLAY ' + ('passes (property holds on this scenario)' if ok else 'still violates'))
             return 0 if ok else 1
         from . import rebuild
